@@ -16,6 +16,12 @@ structure Acc where
 /-- `Accumulator()` / `operator=(T y)` -/
 def set (y : F64) : Acc := ⟨y, 0⟩
 
+/-- `Accumulator::fastsum(u, v, t)` (private, "requires abs(u) >= abs(v)", currently unused by the library): returns `(s, t)` -/
+def fastsum (u v : F64) : F64 × F64 :=
+  let s := u + v
+  let vp := s - u
+  (s, v - vp)
+
 /-- `Accumulator::Add(T y)` -/
 def add (a : Acc) (y : F64) : Acc :=
   let p := MathF.sum y a.t        -- y = sum(y, _t, u)
